@@ -28,8 +28,9 @@ MANIFEST = {
     "level_note": "Trusted: exact float comparisons against decimal-lattice edge floats. Lattices are decimal with <= 3 digits; global region at 1 deg (quick) / 0.5 deg (thorough) because 0.1 deg does not fit the sandbox.",
 }
 WATCHDOG_S = {"quick": 900, "thorough": 7200}
-DHS = ["0.1", "0.05", "0.2", "0.25", "0.5", "1", "0.025", "0.01", "0.3"]
-ANCHORS = ["0", "-125.4", "31.5", "165.7", "-47.95", "-0.5", "-180", "10", "-0.05", "3.0", "359.9", "-34.85", "2.5", "12.35", "-90", "0.001"]
+DHS = ["0.1", "0.05", "0.2", "0.25", "0.5", "1", "0.025", "0.01", "0.3", "0.04", "0.07", "0.125", "0.15", "0.0125", "0.6", "2", "0.03"]
+ANCHORS = ["0", "-125.4", "31.5", "165.7", "-47.95", "-0.5", "-180", "10", "-0.05", "3.0", "359.9", "-34.85", "2.5", "12.35", "-90", "0.001",
+           "0.1", "0.06", "-0.1", "0.7", "1.1", "-179.975", "33.3", "-0.3"]
 
 
 def shards(tier):
@@ -310,6 +311,7 @@ def inside_sel_nonempty(masked, sel):
 
 def ex_lattice(ctx, lat_case, seed=0):
     rc = {"exec": "lattice", "args": {"lat_case": lat_case, "seed": seed}}
+    ctx.current_case = rc
     tags = {"ctor": lat_case["ctor"], "single_row_or_column": bool(lat_case["nx"] == 1 or lat_case["ny"] == 1), "flags": lat_case.get("flags") is not None,
             "holes": len(lat_case["cells"]) < lat_case["nx"] * lat_case["ny"], "dh": lat_case["dh"]}
     ok, built, tb = ctx.call(build_region, lat_case)
@@ -325,6 +327,7 @@ def ex_lattice(ctx, lat_case, seed=0):
 def ex_shipped(ctx, name, arg=None, seed=0):
     from csep.core import regions
     rc = {"exec": "shipped", "args": {"name": name, "arg": arg, "seed": seed}}
+    ctx.current_case = rc
     tags = {"ctor": name, "shipped": True}
     f = getattr(regions, name)
     ok, reg, tb = ctx.call(f, **({} if arg is None else arg))
